@@ -1,6 +1,6 @@
 #!/bin/bash
 # mutsim.sh <prop lower> : build a copy of the simulator against worktree /tmp/mut-<prop> and run checks for each of its 4 mutations
-P=$1; PU=$(echo $P | tr a-z A-Z); WT=/tmp/mut-$P
+P=$1; PU=${PROP:-$(echo $P | tr a-z A-Z)}; WT=/tmp/mut-$P
 rm -rf /tmp/sim-$P && mkdir -p /tmp/sim-$P && cp -r /verif/sim/{Cargo.toml,Cargo.lock,.cargo,harness,rayon-core-sim,rayon-sim} /tmp/sim-$P/ 
 sed -i "s#\"/repo#\"$WT#g" /tmp/sim-$P/harness/Cargo.toml
 export CARGO_NET_OFFLINE=true CARGO_TARGET_DIR=/tmp/sim-$P-target LINFA_REPO=$WT VERIF_ROOT=/tmp/sim-$P-root
